@@ -644,6 +644,23 @@ impl PeerManager {
 
         match token_type {
             TokenType::OwnedInvite(owned) => {
+                //the peer has been admitted: the invitation is consumed, whatever happens to the remaining steps
+                //invitations are registered under the token derived from the invite id, not under the peer's meeting token
+                let invite_token = MeetingSecret::derive_token(DERIVE_STRING, &owned.id);
+                let o: Option<&mut Vec<TokenType>> = self.allowed_token.get_mut(&invite_token);
+                if let Some(tokens) = o {
+                    let index = tokens.iter().position(|tt| {
+                        if let TokenType::OwnedInvite(owned_tok) = tt {
+                            owned.id.eq(&owned_tok.id)
+                        } else {
+                            false
+                        }
+                    });
+
+                    if let Some(index) = index {
+                        tokens.remove(index);
+                    }
+                }
                 OwnedInvite::delete(owned.id, &self.services.database).await?;
 
                 if let Some(room) = owned.room {
@@ -677,22 +694,6 @@ impl PeerManager {
                     }
                 }
 
-                //invitations are registered under the token derived from the invite id, not under the peer's meeting token
-                let invite_token = MeetingSecret::derive_token(DERIVE_STRING, &owned.id);
-                let o: Option<&mut Vec<TokenType>> = self.allowed_token.get_mut(&invite_token);
-                if let Some(tokens) = o {
-                    let index = tokens.iter().position(|tt| {
-                        if let TokenType::OwnedInvite(owned_tok) = tt {
-                            owned.id.eq(&owned_tok.id)
-                        } else {
-                            false
-                        }
-                    });
-
-                    if let Some(index) = index {
-                        tokens.remove(index);
-                    }
-                }
                 self.owned_invites =
                     OwnedInvite::list_valid(room_id.clone(), &self.services.database).await?;
             }
